@@ -2,14 +2,14 @@
     Proved on the model (Simp.v, tied to expression_helper.py by exact-tree correspondence):
       (fixpoint)   for ALL trees, every result of the simplifier is a fixpoint of its own rewriting step at the root: applying
                    _expr_simp once more returns an == expression;
-      (idempotent) on well-formed trees (SimpProofs.wf with ac = false, fragments 1-4: constants, identifiers, memory cells, conditionals,
-                   + * ^ & | -, slices, shifts, ==, parity; the identifier predicate determines is_term, as every name signature does)
+      (idempotent) on well-formed trees (SimpProofs.wf, fragments 1-5 — concatenations included: constants, identifiers, memory cells, conditionals,
+                   + * ^ & | -, slices, shifts, ==, parity, concatenations; the identifier predicate determines is_term, as every name signature does)
                    the result is a DEEP normal form — every node of it is returned unchanged by the rewriting step — and
                    simplifying it again returns the IDENTICAL tree, whatever the fuel;
       (order)      the canonical ordering of operands is a permutation of its input whatever the input order (so no operand is
                    lost or duplicated by sorting), and on well-formed trees operand order does not influence the VALUE of the result;
       (fuel)       two successful runs of the model return the same tree whatever their fuel.
-    NOT proved: idempotence outside the well-formed fragment (concatenations, rotates, ==, parity, ill-typed trees),
+    NOT proved: idempotence outside the well-formed fragment (rotates, ill-typed trees),
     that permuted or re-associated operand lists give the IDENTICAL tree (needs injectivity of key_expr on the operands, which
     fails across widths), and independence from PYTHONHASHSEED (a property of the implementation's dict/set iteration):
     these are decided by runs of the implementation (harness/p_c13.py: second pass, all permutations / re-associations of up to
@@ -24,15 +24,15 @@ Proof. exact simp_result_is_step_fixpoint. Qed.
 Print Assumptions C13_result_is_fixpoint_of_the_step.
 
 (** idempotence on well-formed trees: the result is a deep normal form, and a second pass returns the identical tree *)
-Theorem C13_idempotent_on_well_formed_trees : forall (Q : string -> Z -> bool -> bool -> bool),
+Theorem C13_idempotent_on_well_formed_trees : forall (ac : bool) (Q : string -> Z -> bool -> bool -> bool),
   (forall n w r t t', Q n w r t = true -> Q n w r t' = true -> t = t') ->
-  forall fuel e r, wf false Q e = true -> simp fuel e = Ok r -> forall f, simp (S f) r = Ok r.
+  forall fuel e r, wf ac Q e = true -> simp fuel e = Ok r -> forall f, simp (S f) r = Ok r.
 Proof. exact simp_idempotent. Qed.
 Print Assumptions C13_idempotent_on_well_formed_trees.
 
-Theorem C13_result_is_a_deep_normal_form : forall (Q : string -> Z -> bool -> bool -> bool),
+Theorem C13_result_is_a_deep_normal_form : forall (ac : bool) (Q : string -> Z -> bool -> bool -> bool),
   (forall n w r t t', Q n w r t = true -> Q n w r t' = true -> t = t') ->
-  forall fuel e r, wf false Q e = true -> simp fuel e = Ok r -> DF r.
+  forall fuel e r, wf ac Q e = true -> simp fuel e = Ok r -> DF r.
 Proof. exact simp_result_is_normal_form. Qed.
 Print Assumptions C13_result_is_a_deep_normal_form.
 
@@ -67,3 +67,11 @@ Example C13_idempotent_nonvacuous :
   let e := EOp "+" [EOp "+" [b; EInt false 32 3]; EOp ">>" [EOp "&" [a; EInt false 32 255]; EInt false 32 8]; EOp "-" [b]; a] in
   (forall n w r t t', Q n w r t = true -> Q n w r t' = true -> t = t') /\ wf false Q e = true /\ simp 20 e = Ok (EOp "+" [a; EInt false 32 3]).
 Proof. split; [intros n w r t t' H1 H2; apply eqb_prop in H1; apply eqb_prop in H2; congruence|]. vm_compute. split; reflexivity. Qed.
+(** ... and with concatenations (ac = true): adjacent constants merge, the result is returned unchanged by a second pass *)
+Example C13_idempotent_compose_nonvacuous :
+  let Q := fun (n : string) (w : Z) (r t : bool) => Bool.eqb t false in
+  let a := EId "eax" 32 true false in
+  let e := EOp "+" [ECompose [(EInt false 32 3, 0, 8); (EInt false 32 1, 8, 16); (ESlice a 16 32, 16, 32)]; EInt false 32 1] in
+  let r := EOp "+" [ECompose [(EInt false 32 259, 0, 16); (ESlice a 16 32, 16, 32)]; EInt false 32 1] in
+  wf true Q e = true /\ simp 20 e = Ok r /\ simp 5 r = Ok r.
+Proof. vm_compute. repeat split; reflexivity. Qed.
